@@ -3590,6 +3590,9 @@ TABLE_WORD2 = [
 ]
 FILES += [
     ("Word2Fns.lean", {"ns": "GenW2", "imports": ["Heathcliff.Gen.WordFns"], "table": TABLE_WORD2, "opens": ["HC.GenW"], "prelude": PRELUDE_WORD2}),
+    # phase 4k (worker Q): after Word2Fns, whose functions it calls
+    ("Rns2Fns.lean", {"ns": "GenR2", "imports": ["Heathcliff.Gen.RnsFns", "Heathcliff.Gen.Word2Fns"], "table": __import__("rs2lean_rns4k").TABLE_RNS2_4K,
+                      "opens": ["HC.GenW", "HC.GenR"]}),
 ]
 # Gen/DwtFns.lean (phase 4e, handler mode - tools/rs2lean_dwt.py): the butterfly network `DWTHandler::transform_to_rev` / `transform_from_rev`
 # (src/util/dwthandler.rs, generic over `trait Arithmetic`) and the `NTTTables` wrappers that run it with `ModArithLazy` (src/util/ntt.rs)
